@@ -134,7 +134,7 @@ def state_case(rep, spec, index):
         rep.require("helper has the same outcome as the standalone calculation", isinstance(sf, ZeroDivisionError), case, {"helper": "separation factor", "error": repr(sf)})
     # one-point ideal curve
     with guards.calc_tap() as taps:
-        st, curve = _guard(lambda: pv.ideal_diffusion_curve(T, [x], tp, pp, prec, model))
+        st, curve = _guard(lambda: pv.ideal_diffusion_curve(T, (x,) if index % 3 == 0 else [x], tp, pp, prec, model))
     if st == "ok":
         if index % 4 == 0:
             proc.plot_everything(curve)  # looking at the curve first must not change what it reports
